@@ -135,6 +135,7 @@ func fingerprintDocument(doc *ast.Document, op *ast.OperationDefinition, operati
 	w.writeString(operationName)
 	w.writeByte(0)
 	w.writeVariableDefs(op.VariableDefinitions)
+	w.writeDirectives(op.Directives)
 	w.writeSelectionSet(op.SelectionSet)
 	return strconv.FormatUint(h.Sum64(), 16)
 }
@@ -172,6 +173,10 @@ func (w *fingerprintWriter) writeVariableDefs(defs []*ast.VariableDefinition) {
 		w.writeString(d.Variable.Name.Value)
 		w.writeByte(':')
 		w.writeType(d.Type)
+		if d.DefaultValue != nil {
+			w.writeByte('=')
+			w.writeValue(d.DefaultValue)
+		}
 		w.writeByte(',')
 	}
 	w.writeByte(')')
@@ -208,19 +213,8 @@ func (w *fingerprintWriter) writeSelectionSet(sel *ast.SelectionSet) {
 			if s.Name != nil {
 				w.writeString(s.Name.Value)
 			}
-			if len(s.Arguments) > 0 {
-				w.writeByte('(')
-				for _, a := range s.Arguments {
-					if a == nil || a.Name == nil {
-						continue
-					}
-					w.writeString(a.Name.Value)
-					w.writeByte('=')
-					w.writeValue(a.Value)
-					w.writeByte(',')
-				}
-				w.writeByte(')')
-			}
+			w.writeArguments(s.Arguments)
+			w.writeDirectives(s.Directives)
 			w.writeSelectionSet(s.SelectionSet)
 			w.writeByte(';')
 		case *ast.InlineFragment:
@@ -228,12 +222,14 @@ func (w *fingerprintWriter) writeSelectionSet(sel *ast.SelectionSet) {
 			if s.TypeCondition != nil && s.TypeCondition.Name != nil {
 				w.writeString(s.TypeCondition.Name.Value)
 			}
+			w.writeDirectives(s.Directives)
 			w.writeSelectionSet(s.SelectionSet)
 			w.writeByte(';')
 		case *ast.FragmentSpread:
 			w.writeString("...")
 			if s.Name != nil {
 				w.writeString(s.Name.Value)
+				w.writeDirectives(s.Directives)
 				w.writeByte(';')
 				w.writeFragmentBody(s.Name.Value)
 			}
@@ -258,7 +254,40 @@ func (w *fingerprintWriter) writeFragmentBody(name string) {
 	if frag.TypeCondition != nil && frag.TypeCondition.Name != nil {
 		w.writeString(frag.TypeCondition.Name.Value)
 	}
+	w.writeDirectives(frag.Directives)
 	w.writeSelectionSet(frag.SelectionSet)
+}
+
+// writeArguments writes an argument list (of a field or a directive).
+func (w *fingerprintWriter) writeArguments(args []*ast.Argument) {
+	if len(args) == 0 {
+		return
+	}
+	w.writeByte('(')
+	for _, a := range args {
+		if a == nil || a.Name == nil {
+			continue
+		}
+		w.writeString(a.Name.Value)
+		w.writeByte('=')
+		w.writeValue(a.Value)
+		w.writeByte(',')
+	}
+	w.writeByte(')')
+}
+
+// writeDirectives writes the directives applied to a node. Directives such
+// as @skip / @include change the response, so two documents that differ only
+// in a directive must not share a cache entry.
+func (w *fingerprintWriter) writeDirectives(directives []*ast.Directive) {
+	for _, d := range directives {
+		if d == nil || d.Name == nil {
+			continue
+		}
+		w.writeByte('@')
+		w.writeString(d.Name.Value)
+		w.writeArguments(d.Arguments)
+	}
 }
 
 // writeValue writes canonical bytes for an ast.Value. Variables are
